@@ -97,6 +97,31 @@ RLIMIT_ERR = re.compile(r'(resource limit|rlimit|timed? ?out|while loop: Resourc
 
 
 def run_unit(unit, workdir, canary=False, rlimit=None, timeout=900, tpl_path=None):
+    """Composite units re-verify the functions of the units they include; their canary is restricted to the functions
+    they add (registry.CANARY_ONLY) and run one function at a time (--verify-function), the others have their own canary."""
+    import registry
+    names = registry.CANARY_ONLY.get(unit) if canary is True else None
+    if not names:
+        return _run_unit(unit, workdir, canary, rlimit, timeout, tpl_path)
+    merged = None
+    for nm in names:
+        r = _run_unit(unit, workdir, list(names), rlimit, timeout, tpl_path, extra=['--verify-root', '--verify-function', nm])
+        r['functions'] = [f for f in r['functions'] if f['function'].split('::')[-1] == nm]
+        if merged is None:
+            merged = r
+        else:
+            merged['functions'] += r['functions']
+            merged['wall_s'] += r['wall_s']
+            if r['status'] != 'fail':
+                merged['status'] = r['status']
+                merged['reason'] = r.get('reason', '')
+    ext = merged.get('extraction', {})
+    ext['functions'] = [f for f in ext.get('functions', []) if f.split('::')[-1] in names]
+    merged['canary'] = True
+    return merged
+
+
+def _run_unit(unit, workdir, canary=False, rlimit=None, timeout=900, tpl_path=None, extra=None):
     t0 = time.time()
     res = {'unit': unit, 'backend': 'verus', 'canary': canary, 'status': 'undecided', 'functions': [],
            'failed': [], 'reason': '', 'wall_s': 0.0}
@@ -128,9 +153,14 @@ def run_unit(unit, workdir, canary=False, rlimit=None, timeout=900, tpl_path=Non
         res['reason'] = 'unlisted trusted construct(s): ' + '; '.join(unlisted)
         res['wall_s'] = time.time() - t0
         return res
-    cmd = [VERUS, fname, '--output-json', '--time', '--multiple-errors', '20']
+    # canary runs only need to know that every function fails: stop at the first error of each function
+    cmd = [VERUS, fname, '--output-json', '--time', '--multiple-errors', '1' if canary else '20']
+    if canary and not rlimit:
+        rlimit = 3   # a canary only has to stay unproved; a small budget keeps the many failing queries cheap
     if rlimit:
         cmd += ['--rlimit', str(rlimit)]
+    if extra:
+        cmd += extra
     res['cmd'] = ' '.join(cmd)
     try:
         p = subprocess.run(cmd, cwd=workdir, stdout=subprocess.PIPE, stderr=subprocess.PIPE, timeout=timeout,
@@ -178,6 +208,8 @@ def run_unit(unit, workdir, canary=False, rlimit=None, timeout=900, tpl_path=Non
     if not ver and rl:
         res['reason'] = 'resource limit exceeded in: ' + ', '.join(failed_fns)
         res['rlimit_exceeded'] = True
+        if canary:
+            res['status'] = 'fail'   # for a canary "not proved" is the expected outcome, whatever the reason
         return res
     unknown = [b for b in ver if not VERIF_ERR.search(b['text'])]
     if unknown and not [b for b in ver if VERIF_ERR.search(b['text'])]:
